@@ -52,9 +52,8 @@ def unescapePipes : Nat → Option Char → Str → Str
 
 /-- the cell contents of `TableRow.__init__` paired with their alignment (`zip_longest`) -/
 def zipLongest : List Str → List (Option Nat) → List (Option Str × Option Nat)
-  | [], [] => []
+  | [], as => as.map (fun a => (none, a))        -- structural on the cells, so the kernel can evaluate it
   | c :: cs, [] => (some c, none) :: zipLongest cs []
-  | [], a :: as => (none, a) :: zipLongest [] as
   | c :: cs, a :: as => (some c, a) :: zipLongest cs as
 
 section
